@@ -67,6 +67,9 @@ def conc(case):
 D1 = ["rowslice_a", "rowslice_b", "rowrev", "rowstep2", "rowlist", "mask", "colslice_a", "colslice_b", "colrev", "colstep2", "colstepm2",
       "addone", "concat", "sort", "cumsum", "diff", "where", "ellipsis"]
 PROBES_Q = ["read", "rowint", "elem", "rowslice", "colslice", "colrev", "ufunc", "rowsum", "set_row", "set_col"]
+# every other public operation, applied to the plainest lazy selections (is a pending view materialised before its geometry is used?)
+PROBES_API = ["colsum", "colcounts", "padded", "padded_left", "unique", "cumsum", "concat", "where", "rslice", "any", "max", "nonzero", "iter", "tolist", "shape"]
+API_STEPS = ["rowslice_a", "rowrev", "rowlist", "mask", "colslice_a", "colrev", "colstep2"]
 VIEW_STEPS = ["rowslice_a", "rowrev", "rowstep2", "rowlist", "mask", "colslice_a", "colslice_b", "colrev", "colstep2", "colstepm2"]
 
 
@@ -77,6 +80,11 @@ def jobs(tier, seed):
     for s in D1:
         for pk in probes:
             out.append(dict(R=(2 if q else 3), L=3, B=2, steps=[s], probe=pk))
+    for s in API_STEPS:
+        for pk in PROBES_API:
+            if pk in probes:
+                continue
+            out.append(dict(R=2 if q else 3, L=2 if q else 3, B=2, steps=[s], probe=pk))
     # depth 2: views of views (these compound start/length/column-step triples) -- all pairs of view steps
     pairs = list(itertools.product(VIEW_STEPS, VIEW_STEPS))
     import random
